@@ -136,4 +136,12 @@ PROPS.update({
         explanation="theorems: pkcs7_shape, keystream_prefix, ctr_prefix (padding cannot alter record bytes), ctr_length, ctr_involutive, handle_short_ignored, handle_bad_key, handle_decrypts (plaintext = CTR decryption of the unpadded bytes 8.., type 0x01 dispatched to the solar decoder on that plaintext), handle_total (never panics, via C08), match_iff, match_malformed, match_sound"),
 })
 
+PROPS.update({
+    "C20": dict(TABLES, tools=["extract", "harness", "vecli"], suites=["c20"], trivial=r"^$", timeout=1800,
+        rule="the REAL vecli binary (go build of /repo's vecli on every run) against a simulated VE.Direct device behind a pseudo-terminal (/dev/ptmx, tarm/serial at 19200 baud, 200 ms read timeout): one product of each class (more in thorough) x random valid register contents incl. boundary values x {no flag, -v, --io-log, both} + device silent after k answers (k = 0, 3, 7; random k in thorough) + device silent at ping; stdout parsed line by line (count, order, text of every line) and compared with the model's rendering (numbers printed with %f); every written I/O log is parsed and replayed through a lookup port with the real API; a run that does not terminate within 30 s is a HANG violation",
+        trusted_base=[KERNEL, HARNESS, T1, MODEL_API, "the pty, tarm/serial, cobra, fmt %f/%s formatting (exercised, not modelled)", "bin/check's %f realisation of raw/factor+offset"],
+        assumptions=["lines with equal sort key are compared as a set (Go ranges over maps in GetList)", "the no-hang clause for the real binary is a harness timeout, for the model it is totality"],
+        explanation="theorems: connect_error, fetch_error (error reported, no lines, total), count_is_lines, lines_sorted (non-decreasing sort key), lines_are_registers (each line = a register of the product's list with a value delivered by the read: C09/C10), all_delivered_printed"),
+})
+
 NOT_APPLICABLE = {}
